@@ -28,7 +28,9 @@ def sub_rng(seed, *names):
 class Osim:
     load_dependent_ends = 0   # per worker process
 
-    def __init__(self, flavour='sim', env=None, prefix=None):
+    def __init__(self, flavour='sim', env=None, prefix=None, clean_env=False, oneshot=False):
+        self.oneshot = oneshot       # one freshly exec'ed process per plan: no server history in the address space at all
+        self.clean_env = clean_env   # fixed minimal environment: the initial stack address then does not depend on the caller's
         self.flavour = flavour
         self.path = os.path.join(BUILD, flavour, 'osim')
         self.env = env
@@ -37,12 +39,29 @@ class Osim:
         self.runs = 0
 
     def start(self):
-        e = dict(os.environ)
+        e = {'PATH': '/usr/bin:/bin', 'LANG': 'C'} if self.clean_env else dict(os.environ)
         if self.env:
             e.update(self.env)
         self.proc = subprocess.Popen(self.prefix + [self.path, 'serve'], stdin=subprocess.PIPE, stdout=subprocess.PIPE, stderr=subprocess.DEVNULL, env=e)
 
     def run(self, plan):
+        if self.oneshot:
+            e = {'PATH': '/usr/bin:/bin', 'LANG': 'C'} if self.clean_env else dict(os.environ)
+            if self.env:
+                e.update(self.env)
+            try:
+                r = subprocess.run(self.prefix + [self.path, 'run', '-'], input=(json.dumps(plan, separators=(',', ':')) + '\n').encode(), stdout=subprocess.PIPE,
+                                   stderr=subprocess.DEVNULL, env=e, timeout=plan.get('wall_s', 120) + 60)
+                out = r.stdout
+            except subprocess.TimeoutExpired:
+                out = b''
+            if not out.strip():
+                return {'id': plan.get('id'), 'harness_error': 'osim run produced nothing', 'log': [], 'exit': -1, 'sig': 0, 'stdout': '', 'stderr': ''}
+            self.runs += 1
+            r = json.loads(out.decode(errors='replace').strip().splitlines()[-1])
+            if r.get('wall_timeout') or r.get('sig') == 24:
+                Osim.load_dependent_ends += 1
+            return r
         if self.proc is None or self.proc.poll() is not None:
             self.start()
         line = json.dumps(plan, separators=(',', ':')) + '\n'
@@ -409,6 +428,8 @@ def run_check(check, tier, seed=None, budget_s=None, jobs=None):
         if k['property'] == pid and k['id'] in known_hits:
             lines.append('KNOWN-FINDING: property=%s %s (%d occurrences this run; replay=%s)' % (pid, k['what'], known_hits[k['id']], k.get('replay')))
 
+    if reported > 0:
+        exit_code = 1   # a violation that passed the reproduction gate is a finding, whatever else went wrong in the run
     wall = time.time() - t_start
     ev = {
         'property_id': pid, 'tier': tier, 'seed': seed, 'level': 'exploration',
